@@ -184,6 +184,7 @@ func init() {
 		if m["obs"] == "auto" {
 			f.Opt.ObsAutoOnly = true
 		}
+		f.Opt.MapDesc = atoi(m["mapdesc"], 0) != 0
 		f.Next = func(md *model.Model, hist []seq.Op, left int) []seq.Op {
 			var out []seq.Op
 			if autow {
@@ -293,10 +294,64 @@ func init() {
 	// history with work possibly pending, restart, then the same epilogue.
 	seq.Register("disk", func(p string) *seq.Family {
 		m := params(p)
-		base := seq.Lookup("iso", p+",gc=0")
+		// collection passes inside the history only on request (gc=1): the epilogue always runs one
+		gcp := ",gc=0"
+		if atoi(m["gc"], 0) != 0 {
+			gcp = ""
+		}
+		base := seq.Lookup("iso", p+gcp)
 		closeFirst := atoi(m["close"], 0) != 0
 		f := &seq.Family{Opt: base.Opt, Next: base.Next}
 		f.Opt.Epilogue = func(r *seq.Runner) *seq.Mismatch { return DiskEpilogue(r, closeFirst) }
+		return f
+	})
+
+	// heldreader: GC-free histories with a reader opened at one position (through the autocommit caller or
+	// an open transaction) and one collection pass at or after it; the reader is drained at the end of
+	// the history and must deliver the whole value it was opened on (C09: a read in progress is a read).
+	seq.Register("heldreader", func(p string) *seq.Family {
+		m := params(p)
+		base := seq.Lookup("iso", p+",gc=0")
+		nk := atoi(m["keys"], 1)
+		slots := atoi(m["slots"], 2)
+		f := &seq.Family{Opt: base.Opt, Next: base.Next}
+		f.Variants = func(hist []seq.Op) [][]seq.Op {
+			var out [][]seq.Op
+			n := len(hist)
+			for pos := 0; pos <= n; pos++ {
+				for a := model.Auto; a < slots; a++ {
+					if a >= 0 {
+						// only where that slot holds an open transaction (begun before pos, not ended)
+						open := false
+						for _, op := range hist[:pos] {
+							if op.Actor == a {
+								switch op.Kind {
+								case seq.Begin:
+									open = true
+								case seq.Commit, seq.Rollback:
+									open = false
+								}
+							}
+						}
+						if !open {
+							continue
+						}
+					}
+					for _, k := range keyNames[:nk] {
+						for g := pos; g <= n; g++ {
+							h := make([]seq.Op, 0, n+2)
+							h = append(h, hist[:pos]...)
+							h = append(h, seq.Op{Kind: seq.HoldReader, Actor: a, Key: k})
+							h = append(h, hist[pos:g]...)
+							h = append(h, seq.Op{Kind: seq.GC})
+							h = append(h, hist[g:]...)
+							out = append(out, h)
+						}
+					}
+				}
+			}
+			return out
+		}
 		return f
 	})
 
@@ -307,6 +362,7 @@ func init() {
 		base := seq.Lookup("iso", p+",gc=0")
 		maxgc := atoi(m["maxgc"], 2)
 		f := &seq.Family{Opt: base.Opt, Next: base.Next}
+		f.Opt.HeldReaders = true
 		f.Variants = func(hist []seq.Op) [][]seq.Op {
 			n := len(hist) + 1 // positions: before op i (0..len-1) and at the end
 			var out [][]seq.Op
